@@ -28,6 +28,7 @@ BadSt   == [fg |-> Bad, bg |-> Bad, eff |-> {}]      \* result of an unknown SGR
 (*  | [t |-> "bool", v |-> 0 | 1]  (False / True: integers in range(256), hence codes 0 / 1)  *)
 (*  | [t |-> "rgbl", r, g, b]      (the triple given as a list)                               *)
 (*  | [t |-> "float", v] | [t |-> "obj"]  (7.0, a dict: invalid values)                       *)
+(*  | [t |-> "badstr", i]  (a string that is no colour value: "g5x", "g1.5", "red", "12a", ...)  *)
 Resolve(c) ==
   CASE c.t = "none" -> NoCol
     [] c.t = "name" -> IF c.n \in 0 .. 7 THEN Name(c.n) ELSE Bad
@@ -38,7 +39,7 @@ Resolve(c) ==
     [] c.t = "bool" -> Idx(c.v)
     [] c.t = "rgbl" -> IF c.r \in 0 .. 5 /\ c.g \in 0 .. 5 /\ c.b \in 0 .. 5
                          THEN Idx(16 + 36 * c.r + 6 * c.g + c.b) ELSE Bad
-    [] c.t \in {"float", "obj"} -> Bad
+    [] c.t \in {"float", "obj", "badstr"} -> Bad
 
 (* cfg = [fg, bg, eff (set of effect names), nocolor] *)
 Valid(cfg) == cfg.nocolor \/ (Resolve(cfg.fg) # Bad /\ Resolve(cfg.bg) # Bad)
